@@ -31,6 +31,10 @@ pub fn run_program(prog: &Program, seed: u64, forced: Option<Vec<u16>>, strict: 
     let out = simrt::run(cfg, move || {
         w.run_thread(0);
         w.teardown();
+        if !simrt::wait_others() {
+            let b = simrt::blocked_snapshot();
+            w.log(K::Leaked { threads: b.into_iter().map(|x| (x.tid, x.obj.into())).collect() });
+        }
         drop(w);
     });
     let ev = std::mem::take(&mut *hist.ev.lock().unwrap());
